@@ -74,12 +74,12 @@ BadCases == [k : {"bad"}, s : BadStrings]
 
 Init == c \in [k : {"group"}, g : 0..20]
 Next == /\ c.k = "group"
-        /\ c' \in CASE c.g \in WitVers -> RtWit(c.g)
-                    [] c.g = 17 -> RtB58 \cup KeyCases
-                    [] c.g = 18 -> BadKeyCases
-                    [] c.g = 19 -> B58Cases
-                    [] c.g = 20 -> BadCases
-                    [] OTHER -> {}
+        /\ c' \in (CASE c.g \in WitVers -> RtWit(c.g)
+                     [] c.g = 17 -> RtB58 \cup KeyCases
+                     [] c.g = 18 -> BadKeyCases
+                     [] c.g = 20 -> BadCases
+                     [] OTHER -> {})
+                  \cup {x \in B58Cases : x.v % 21 = c.g}            \* spread over the groups (parallel workers)
 
 (* ---- properties ---- *)
 RoundTrip == c.k = "rt" =>
